@@ -3,7 +3,12 @@
 Generates N documents x options exactly as tools/checks/rtfam.py does, runs the round trip, evaluates EVERY
 class predicate on EVERY document (unshrunk tree) and prints, per class: the fraction of all documents it
 matches, the fraction of the documents that are clean for both properties it matches, and the fraction of the
-failing documents it matches.  A class that matches a large share of clean documents explains nothing."""
+failing documents it matches.  A class that matches a large share of clean documents explains nothing.
+The numbers are for UNSHRUNK documents (several constructs each); the checks classify a failure only after
+ddmin has reduced it to the constructs that are needed for it to fail, where incidental matches are rarer.
+The wrap_* classes are defined for failing documents only (`the failure disappears at width 0`): on a clean
+document they read `wrapping produced a line that starts with the token`.  Column st: k = known for C07 and/or
+C17, f = repaired (status fixed: the predicate only names a regression)."""
 import os, sys
 sys.path.insert(0, os.path.dirname(os.path.abspath(__file__)))
 import vlib
@@ -42,9 +47,10 @@ def main():
                 hit_fail[k] = hit_fail.get(k, 0) + 1
     proc.close()
     print(f"documents {tot}  clean(both) {clean}  failing(C07 or C17) {failing}  seed {seed}")
-    print(f"{'class':40s} {'all':>8s} {'clean':>8s} {'failing':>8s}")
+    known = {e["class"] for p in ("C07", "C17") for e in vlib.load_known(p)}
+    print(f"{'class':40s} st {'all':>8s} {'clean':>8s} {'failing':>8s}")
     for k in sorted(rtfam.CLASSES, key=lambda k: -hit_all.get(k, 0)):
-        print(f"{k:40s} {hit_all.get(k, 0) / max(1, tot):8.4f} {hit_clean.get(k, 0) / max(1, clean):8.4f} {hit_fail.get(k, 0) / max(1, failing):8.4f}")
+        print(f"{k:40s} {'k' if k in known else 'f'}  {hit_all.get(k, 0) / max(1, tot):8.4f} {hit_clean.get(k, 0) / max(1, clean):8.4f} {hit_fail.get(k, 0) / max(1, failing):8.4f}")
 
 
 if __name__ == "__main__":
